@@ -53,6 +53,10 @@ def gen_case(seed, tier="quick"):
                 E = node.get(key)
                 if not done[0] and isinstance(E, list) and E[0] == "aff" and E[3] == "t":
                     node[key] = ["aff2", E[1], E[2], "t", GG.q(r.uniform(0.05, 0.2), 64.0), "s"]
+                    if rnd(seed, "default-valued").random() < 0.4 and not any(
+                            k_ in ("bleft", "bright") for k_ in G.kinds(dom)):      # (F25's cell has its own symptom)
+                        # the second variable is declared WITH a python default in the shape function
+                        node[key] = ["aff2d"] + node[key][1:] + [GG.q(rnd(seed, "default-value").uniform(0, 1))]
                     done[0] = True
             for key in ("c", "o", "c1", "c2", "v"):
                 Es = node.get(key)
@@ -82,9 +86,19 @@ def gen_case(seed, tier="quick"):
         take = left[:r.randint(1, len(left))]
         left = left[len(take):]
         steps.append({"vals": {v: full[v] for v in take}, "as_tensor": True})
+    has_default = '"aff2d"' in __import__("json").dumps(dom)
+    if has_default:
+        # a default-valued variable left open when the last REQUIRED one is fixed takes its default for good
+        # (UserFunction evaluates at once): the histories fix it no later than t, so that "the original evaluated
+        # at those values" is the comparison the property speaks about
+        it = next(i for i, st in enumerate(steps) if "t" in st["vals"])
+        js = next(i for i, st in enumerate(steps) if "s" in st["vals"])
+        if js > it:
+            steps[it]["vals"], steps[js]["vals"] = steps[js]["vals"], steps[it]["vals"]
     if r.random() < 0.3:
         # branch off the original again (repeated evaluation of the same object)
-        steps.append({"vals": {names[0]: full[names[0]]}, "on": 0, "as_tensor": True})
+        v0 = "s" if has_default else names[0]
+        steps.append({"vals": {v0: full[v0]}, "on": 0, "as_tensor": True})
     return {"format": 1, "property": ID, "engine": "partialsim", "seed": seed, "rng": H(seed, "rng"), "dom": dom,
             "pspace": pspace, "full": full, "steps": steps, "n": r.choice((1, 2, 7, 30)),
             "fault": geo_cases.gen_fault(r, seed, 0.4)}
